@@ -17,8 +17,9 @@ import (
 func init() { checks["C11"] = runC11 }
 
 type c11Adj struct {
-	with map[string]string
-	skip any
+	with  map[string]string
+	skip  any
+	isNil bool // a null entry in the adjustments list (parses to a nil *MatrixAdjustment)
 }
 
 type c11Matrix struct {
@@ -36,6 +37,10 @@ func (m c11Matrix) impl() *pipeline.Matrix {
 		pm.Setup[k] = v
 	}
 	for _, a := range m.adjs {
+		if a.isNil {
+			pm.Adjustments = append(pm.Adjustments, nil)
+			continue
+		}
 		w := pipeline.MatrixAdjustmentWith{}
 		for k, v := range a.with {
 			w[k] = v
@@ -59,6 +64,10 @@ func (m c11Matrix) vl() any {
 	}
 	var adjs []any
 	for _, a := range m.adjs {
+		if a.isNil {
+			adjs = append(adjs, nil)
+			continue
+		}
 		adjs = append(adjs, vl.OMap{{K: "with", V: ssOMap(a.with)}, {K: "skip", V: a.skip}})
 	}
 	if adjs == nil {
@@ -101,6 +110,9 @@ func c11Spec(m c11Matrix, p map[string]string) bool {
 	}
 	// a malformed adjustment rejects
 	for _, a := range m.adjs {
+		if a.isNil {
+			return false
+		}
 		if len(a.with) != len(m.setup) {
 			return false
 		}
@@ -281,6 +293,7 @@ func runC11(c *ctx) error {
 				out = append(out, c11Adj{with: w, skip: s})
 			}
 		}
+		out = append(out, c11Adj{isNil: true})
 		return out
 	}
 	rng := c.rng.Fork()
@@ -345,6 +358,10 @@ func runC11(c *ctx) error {
 		}
 		var adjs []c11Adj
 		for k := rng.Intn(4); k > 0; k-- {
+			if rng.Intn(15) == 0 {
+				adjs = append(adjs, c11Adj{isNil: true})
+				continue
+			}
 			adjs = append(adjs, c11Adj{with: mk(), skip: core.Pick(rng, skips)})
 		}
 		var ps []map[string]string
@@ -352,7 +369,9 @@ func runC11(c *ctx) error {
 			ps = append(ps, mk())
 		}
 		for _, a := range adjs {
-			ps = append(ps, a.with)
+			if !a.isNil {
+				ps = append(ps, a.with)
+			}
 		}
 		c11Check(c, shards[i%nShard], c11Matrix{setup: setup, adjs: adjs}, ps, false)
 		c.res.Hist("random-matrix")
